@@ -158,7 +158,7 @@ static void use_everything(const char *who, int ncb_before, int lfht)
 
 /* a table created before the fork, with its resize worker possibly busy */
 static struct cds_lfht *pre_ht;
-static struct cds_lfht_node pre_nodes[6];
+static struct cds_lfht_node pre_nodes[12];
 
 /* the inherited AUTO_RESIZE table is emptied and destroyed: the teardown is queued to the (re-created) worker */
 static void pre_ht_teardown(const char *who)
@@ -274,7 +274,109 @@ static void run_fork(void)
 	rcu_unregister_thread();
 }
 
+/* ---- two consecutive forks: the process that came out of the first one forks again --------------------------------------------
+ * fork_follow / fork_follow2 select the side followed at each fork.  pre_lfht=1: an AUTO_RESIZE table (and with it the resize
+ * worker) exists before the first fork and gets more insertions (lazy resize work for the worker) before the second one.
+ * racer=1 (bp): another thread creates the process's first AUTO_RESIZE table while the forking thread is inside its first
+ * bracket; that table is later emptied and destroyed (teardown runs on the worker) in the process followed after fork 2. */
+static struct cds_lfht *racer_ht;
+
+static void *racer_thread(void *a)
+{
+	(void)a;
+	racer_ht = cds_lfht_new_flavor(1, 1, 8, CDS_LFHT_AUTO_RESIZE, &rcu_flavor, NULL);
+	return NULL;
+}
+
+static pid_t bracketed_fork(void)
+{
+	pid_t pid;
+
+	BLOCKING(call_rcu_before_fork());
+#ifdef FLAVOR_BP
+	urcu_bp_before_fork();
+#endif
+	pid = fork();
+	if (pid == 0) {
+#ifdef FLAVOR_BP
+		urcu_bp_after_fork_child();
+#endif
+		call_rcu_after_fork_child();
+	} else {
+#ifdef FLAVOR_BP
+		urcu_bp_after_fork_parent();
+#endif
+		call_rcu_after_fork_parent();
+	}
+	return pid;
+}
+
+static void run_fork2(void)
+{
+	int pre_lfht = (int)vrt_param("pre_lfht", 0), racer = (int)vrt_param("racer", 0), i, n = 0, have_racer_thread = 0;
+	struct cds_lfht_iter it;
+	pthread_t rt;
+	pid_t p1, p2;
+	const char *who;
+
+	rcu_register_thread();
+#ifdef FLAVOR_BP
+	rcu_read_lock();
+	rcu_read_unlock();
+#else
+	racer = 0;	/* no other reader thread may exist at fork time in the other flavors */
+#endif
+	if (pre_lfht) {
+		pre_ht = cds_lfht_new_flavor(1, 1, 16, CDS_LFHT_AUTO_RESIZE, &rcu_flavor, NULL);
+		for (i = 0; i < 4; i++) {
+			cds_lfht_node_init(&pre_nodes[i]);
+			RD_LOCK();
+			cds_lfht_add(pre_ht, (unsigned long)i, &pre_nodes[i]);
+			RD_UNLOCK();
+		}
+	}
+	if (racer) {
+		pthread_create(&rt, NULL, racer_thread, NULL);
+		have_racer_thread = 1;
+	}
+	p1 = bracketed_fork();
+	if (p1 == 0)
+		have_racer_thread = 0;		/* the child has only the forking thread */
+	if (have_racer_thread)
+		pthread_join(rt, NULL);
+	if (pre_lfht)
+		for (i = 4; i < 8; i++) {	/* more work for the (in the child: re-created) resize worker */
+			cds_lfht_node_init(&pre_nodes[i]);
+			RD_LOCK();
+			cds_lfht_add(pre_ht, (unsigned long)i, &pre_nodes[i]);
+			RD_UNLOCK();
+		}
+	p2 = bracketed_fork();
+	who = p1 == 0 ? (p2 == 0 ? "grandchild" : "child (after forking again)") : (p2 == 0 ? "second child" : "parent (after two forks)");
+	use_everything(who, 0, 2);
+	if (pre_lfht) {
+		RD_LOCK();
+		for (cds_lfht_first(pre_ht, &it); cds_lfht_iter_get_node(&it); cds_lfht_next(pre_ht, &it))
+			n++;
+		VRT_CHECK(n == 8, "%s: inherited hash table shows %d of 8 nodes", who, n);
+		for (i = 0; i < 8; i++)
+			VRT_CHECK(cds_lfht_del(pre_ht, &pre_nodes[i]) == 0, "%s: del from the inherited table failed", who);
+		RD_UNLOCK();
+		BLOCKING(cds_lfht_resize(pre_ht, 2));
+		VRT_CHECK(cds_lfht_destroy(pre_ht, NULL) == 0, "%s: destroy of the emptied inherited table failed", who);
+		while (!vrt_is_freed(pre_ht))
+			BLOCKING(vrt_yield());
+	}
+	if (racer_ht && p1 != 0) {
+		VRT_CHECK(cds_lfht_destroy(racer_ht, NULL) == 0, "%s: destroy of the racer's empty table failed", who);
+		while (!vrt_is_freed(racer_ht))
+			BLOCKING(vrt_yield());
+	}
+	rcu_unregister_thread();
+}
+
 struct vrt_scenario vrt_scenarios[] = {
+	{ "fork2", run_fork2, "two consecutive bracketed forks; params fork_follow, fork_follow2, pre_lfht, racer" },
 	{ "fork", run_fork, "fork with the documented handlers; params fork_follow, helpers, readers, hold, lfht, pre_lfht, ncb" },
 	{ NULL, NULL, NULL }
 };
